@@ -835,3 +835,196 @@ Proof.
   eexists; split; [reflexivity|]. cbn [v_offy v_offx]. split; [|auto].
   split; apply var_wf_intro; assumption.
 Qed.
+
+(** * Two-dimensional statements *)
+Definition in_grid (t : rtiles) (rc : Z * Z) : Prop :=
+  0 <= fst rc < fst (rt_shape t) /\ 0 <= snd rc < snd (rt_shape t).
+Definition in_roi (r : (Z * Z) * (Z * Z)) (p : Z * Z) : Prop :=
+  fst (fst r) <= fst p < snd (fst r) /\ fst (snd r) <= snd p < snd (snd r).
+Definition By (t : rtiles) := ax_B (rt_y t).
+Definition Bx (t : rtiles) := ax_B (rt_x t).
+Definition tile_region (t : rtiles) (rc : Z * Z) : (Z * Z) * (Z * Z) :=
+  ((By t (fst rc), By t (fst rc + 1)), (Bx t (snd rc), Bx t (snd rc + 1))).
+Definition block_region (t : rtiles) (blk : (Z * Z) * (Z * Z)) : (Z * Z) * (Z * Z) :=
+  ((By t (fst (fst blk)), By t (snd (fst blk))), (Bx t (fst (snd blk)), Bx t (snd (snd blk)))).
+Definition valid_block (t : rtiles) (blk : (Z * Z) * (Z * Z)) : Prop :=
+  0 <= fst (fst blk) < fst (rt_shape t) /\ fst (fst blk) <= snd (fst blk) <= fst (rt_shape t) /\
+  0 <= fst (snd blk) < snd (rt_shape t) /\ fst (snd blk) <= snd (snd blk) <= snd (rt_shape t).
+Definition shift_roi (r : (Z * Z) * (Z * Z)) (o : Z * Z) : (Z * Z) * (Z * Z) :=
+  ((fst (fst r) + fst o, snd (fst r) + fst o), (fst (snd r) + snd o, snd (snd r) + snd o)).
+
+Lemma rt_index t r c : rt_wf t ->
+  let S := rt_shape t in
+  rt_getitem t (int_idx (r, c)) =
+    if in_range (fst S) r && in_range (snd S) c
+    then Ok (tile_region t (wrap_idx (fst S) r, wrap_idx (snd S) c)) else Err EIndex.
+Proof.
+  intros (Hy & Hx). cbv zeta. rewrite rt_getitem_axes, rt_shape_axes. cbn [fst snd int_idx].
+  rewrite (ax_get_int _ r Hy), (ax_get_int _ c Hx). cbv zeta.
+  destruct (in_range (ax_S (rt_y t)) r); cbn [bind andb]; [|reflexivity].
+  destruct (in_range (ax_S (rt_x t)) c); reflexivity.
+Qed.
+
+Lemma rt_tile_shape_spec t r c : rt_wf t ->
+  let S := rt_shape t in 0 < fst S -> 0 < snd S ->
+  rt_tile_shape t (r, c) =
+    if in_range (fst S) r && in_range (snd S) c
+    then Ok (roi_shape2 (tile_region t (wrap_idx (fst S) r, wrap_idx (snd S) c))) else Err EIndex.
+Proof.
+  intros (Hy & Hx). cbv zeta. rewrite rt_tile_shape_axes, rt_shape_axes. cbn [fst snd].
+  intros Sy Sx. rewrite (ax_sz_spec _ r Hy Sy), (ax_sz_spec _ c Hx Sx). cbv zeta.
+  destruct (in_range (ax_S (rt_y t)) r); cbn [bind andb]; [|reflexivity].
+  destruct (in_range (ax_S (rt_x t)) c); reflexivity.
+Qed.
+
+Lemma rt_partition t y x : rt_wf t ->
+  0 <= y < ax_N (rt_y t) -> 0 <= x < ax_N (rt_x t) ->
+  exists rc, rt_locate t (y, x) = Ok rc /\ in_grid t rc /\ in_roi (tile_region t rc) (y, x) /\
+             forall rc', in_grid t rc' -> in_roi (tile_region t rc') (y, x) -> rc' = rc.
+Proof.
+  intros W Hy Hx. rewrite rt_locate_axes by assumption. destruct W as (Wy & Wx).
+  destruct (Z.ltb_spec y 0); [lia|]. destruct (Z.geb_spec y (ax_N (rt_y t))); [lia|].
+  destruct (Z.ltb_spec x 0); [lia|]. destruct (Z.geb_spec x (ax_N (rt_x t))); [lia|]. cbn [orb].
+  destruct (ax_loc_spec _ y Wy Hy) as (r & Er & Rr & Pr).
+  destruct (ax_loc_spec _ x Wx Hx) as (c & Ec & Rc & Pc).
+  rewrite Er, Ec. cbn [bind]. exists (r, c). split; [reflexivity|].
+  unfold in_grid, in_roi, tile_region, By, Bx. rewrite rt_shape_axes. cbn [fst snd].
+  split; [tauto|]. split; [tauto|].
+  intros (r', c') (G1 & G2) (P1 & P2). cbn [fst snd] in *.
+  assert (r' = r) by (apply (ax_unique (rt_y t) y); [exact Wy | exact G1 | exact Rr | exact P1 | exact Pr]).
+  assert (c' = c) by (apply (ax_unique (rt_x t) x); [exact Wx | exact G2 | exact Rc | exact P2 | exact Pc]).
+  congruence.
+Qed.
+
+Lemma rt_locate_outside t y x : rt_wf t ->
+  ~ (0 <= y < ax_N (rt_y t) /\ 0 <= x < ax_N (rt_x t)) -> rt_locate t (y, x) = Err EIndex.
+Proof.
+  intros W H. rewrite rt_locate_axes by assumption.
+  destruct (Z.ltb_spec y 0); [reflexivity|]. destruct (Z.geb_spec y (ax_N (rt_y t))); [reflexivity|].
+  destruct (Z.ltb_spec x 0); [reflexivity|]. destruct (Z.geb_spec x (ax_N (rt_x t))); [reflexivity|].
+  lia.
+Qed.
+
+Lemma rt_region_inside t rc : rt_wf t -> in_grid t rc ->
+  let r := tile_region t rc in
+  0 <= fst (fst r) <= snd (fst r) /\ snd (fst r) <= ax_N (rt_y t) /\
+  0 <= fst (snd r) <= snd (snd r) /\ snd (snd r) <= ax_N (rt_x t).
+Proof.
+  intros (Wy & Wx) G. unfold in_grid in G. rewrite rt_shape_axes in G. cbn [fst snd] in G.
+  cbv zeta. unfold tile_region, By, Bx. cbn [fst snd].
+  pose proof (ax_B_le_N _ (fst rc) Wy ltac:(lia)). pose proof (ax_B_le_N _ (fst rc + 1) Wy ltac:(lia)).
+  pose proof (ax_B_le_N _ (snd rc) Wx ltac:(lia)). pose proof (ax_B_le_N _ (snd rc + 1) Wx ltac:(lia)).
+  pose proof (ax_bounds _ Wy (fst rc) ltac:(lia)). pose proof (ax_bounds _ Wx (snd rc) ltac:(lia)). lia.
+Qed.
+
+Lemma rt_block t blk : rt_wf t -> valid_block t blk ->
+  rt_getitem t (mk_roi blk) = Ok (block_region t blk).
+Proof.
+  intros (Wy & Wx) V. unfold valid_block in V. rewrite rt_shape_axes in V. cbn [fst snd] in V.
+  rewrite rt_getitem_axes. destruct blk as ((a, b), (c, d)). cbn [fst snd mk_roi] in *.
+  rewrite (ax_get_block _ a b Wy) by lia. rewrite (ax_get_block _ c d Wx) by lia. reflexivity.
+Qed.
+
+Lemma rt_block_err t a b c d : rt_wf t -> 0 <= a -> 0 <= b -> 0 <= c -> 0 <= d ->
+  fst (rt_shape t) < a \/ fst (rt_shape t) < b \/ snd (rt_shape t) < c \/ snd (rt_shape t) < d ->
+  rt_getitem t (mk_roi ((a, b), (c, d))) = Err EIndex.
+Proof.
+  intros (Wy & Wx) Ha Hb Hc Hd V. rewrite rt_shape_axes in V. cbn [fst snd] in V.
+  rewrite rt_getitem_axes. cbn [fst snd mk_roi].
+  destruct (Z_lt_le_dec (ax_S (rt_y t)) a); [rewrite ax_get_block_err by (auto; lia); reflexivity|].
+  destruct (Z_lt_le_dec (ax_S (rt_y t)) b); [rewrite ax_get_block_err by (auto; lia); reflexivity|].
+  destruct (ax_get (rt_y t) (mk_sl (a, b))) eqn:E; cbn [bind].
+  - rewrite ax_get_block_err by (auto; lia). reflexivity.
+  - destruct (rt_y t) as [N n K | off]; cbn [ax_get] in E.
+    + unfold tiles_slice in E. destruct (_ && _) in E; congruence.
+    + destruct (_ <? _) in E; [congruence|]. apply vt_slice_err in E. congruence.
+Qed.
+
+Lemma rt_chunks_spec t : rt_wf t -> 0 < fst (rt_shape t) -> 0 < snd (rt_shape t) ->
+  exists chy chx, rt_chunks t = Ok (chy, chx) /\
+                  ax_chunks (rt_y t) = Ok chy /\ ax_chunks (rt_x t) = Ok chx.
+Proof.
+  intros (Wy & Wx). rewrite rt_shape_axes. cbn [fst snd]. intros Sy Sx.
+  destruct (ax_chunks_spec _ Wy Sy) as (chy & Ey & _). destruct (ax_chunks_spec _ Wx Sx) as (chx & Ex & _).
+  exists chy, chx. split; [|auto]. destruct t as [t | v].
+  - cbn [rt_chunks rt_y rt_x ax_chunks] in *. unfold tiles_chunks, tiles_tile_shape. cbn [fst snd].
+    destruct (tile_sz 0 (fst (t_shape t)) _ _); cbn [bind] in *; [|discriminate].
+    destruct (tile_sz 0 (snd (t_shape t)) _ _); cbn [bind] in *; [|discriminate].
+    destruct (tile_sz (fst (t_shape t) - 1) _ _ _); cbn [bind] in *; [|discriminate].
+    destruct (tile_sz (snd (t_shape t) - 1) _ _ _); cbn [bind] in *; [|discriminate].
+    cbn [fst snd]. congruence.
+  - cbn [rt_chunks rt_y rt_x ax_chunks] in *. unfold vt_chunks. congruence.
+Qed.
+
+(** crop *)
+Lemma rt_crop_from_axes t roi Ay Ax : rt_wf t ->
+  ax_crop (rt_y t) (fst roi) = Ok Ay -> ax_crop (rt_x t) (snd roi) = Ok Ax ->
+  exists t', rt_crop t roi = Ok t' /\ rt_y t' = Ay /\ rt_x t' = Ax.
+Proof.
+  intros (Wy & Wx) Ey Ex. destruct t as [t | v].
+  - cbn [rt_crop rt_y rt_x ax_crop ax_wf] in *. unfold tiles_crop, tiles_getitem.
+    destruct (tiles_slice (norm_ss (fst roi) _) _ _) as [ry|]; cbn [bind] in *; [|discriminate].
+    destruct (tiles_slice (norm_ss (snd roi) _) _ _) as [rx|]; cbn [bind] in *; [|discriminate].
+    unfold tiles_init, roi_shape2. cbn [fst snd].
+    destruct (Z.eqb_spec (fst (t_tile t)) 0); [lia|]. destruct (Z.eqb_spec (snd (t_tile t)) 0); [lia|].
+    cbn [orb bind]. eexists; split; [reflexivity|]. cbn [rt_y rt_x t_base t_tile t_shape fst snd].
+    split; congruence.
+  - cbn [rt_crop rt_y rt_x ax_crop] in *. unfold vt_crop, vt_shape, vt_chunks. cbn [fst snd].
+    destruct (fst (norm_ss (fst roi) _) <? 0); [discriminate|].
+    destruct (fst (norm_ss (snd roi) _) <? 0); [discriminate|]. cbn [orb].
+    unfold vt_init.
+    destruct (vt_offsets (py_sel (diffs (v_offy v)) _ _)); cbn [bind] in *; [|discriminate].
+    destruct (vt_offsets (py_sel (diffs (v_offx v)) _ _)); cbn [bind] in *; [|discriminate].
+    eexists; split; [reflexivity|]. cbn [rt_y rt_x v_offy v_offx]. split; congruence.
+Qed.
+
+Lemma rt_crop_spec t blk : rt_wf t -> valid_block t blk ->
+  exists t', rt_crop t (mk_roi blk) = Ok t' /\ rt_wf t' /\
+             rt_shape t' = (snd (fst blk) - fst (fst blk), snd (snd blk) - fst (snd blk)) /\
+             (forall i, 0 <= i <= snd (fst blk) - fst (fst blk) ->
+                        By t' i = By t (fst (fst blk) + i) - By t (fst (fst blk))) /\
+             (forall j, 0 <= j <= snd (snd blk) - fst (snd blk) ->
+                        Bx t' j = Bx t (fst (snd blk) + j) - Bx t (fst (snd blk))).
+Proof.
+  intros W V. pose proof W as (Wy & Wx). unfold valid_block in V. rewrite rt_shape_axes in V.
+  destruct blk as ((a, b), (c, d)). cbn [fst snd] in *.
+  destruct (ax_crop_spec _ a b Wy ltac:(lia) ltac:(lia)) as (Ay & Ey & WAy & SAy & BAy).
+  destruct (ax_crop_spec _ c d Wx ltac:(lia) ltac:(lia)) as (Ax & Ex & WAx & SAx & BAx).
+  destruct (rt_crop_from_axes t (mk_roi ((a, b), (c, d))) Ay Ax W Ey Ex) as (t' & Et & Ty & Tx).
+  exists t'. split; [exact Et|]. unfold rt_wf, By, Bx. rewrite rt_shape_axes, Ty, Tx.
+  split; [auto|]. split; [congruence|]. split; assumption.
+Qed.
+
+(** the tiles of the cropped tiling are the tiles of the block, re-based *)
+Lemma rt_crop_tiles t blk t' i j : rt_wf t -> valid_block t blk ->
+  rt_crop t (mk_roi blk) = Ok t' -> in_grid t' (i, j) ->
+  let o := (By t (fst (fst blk)), Bx t (fst (snd blk))) in
+  in_grid t (fst (fst blk) + i, fst (snd blk) + j) /\
+  tile_region t (fst (fst blk) + i, fst (snd blk) + j) = shift_roi (tile_region t' (i, j)) o.
+Proof.
+  intros W V E G. destruct (rt_crop_spec t blk W V) as (t2 & E2 & W2 & S2 & BY & BX).
+  rewrite E in E2. inversion E2; subst t2. clear E2.
+  unfold in_grid in *. rewrite S2 in G. cbn [fst snd] in G.
+  unfold valid_block in V. cbv zeta. split; [cbn [fst snd]; lia|].
+  unfold tile_region, shift_roi. cbn [fst snd].
+  rewrite (BY i), (BY (i + 1)), (BX j), (BX (j + 1)) by lia.
+  repeat f_equal; try lia.
+  - replace (fst (fst blk) + (i + 1)) with (fst (fst blk) + i + 1) by lia. lia.
+  - replace (fst (snd blk) + (j + 1)) with (fst (snd blk) + j + 1) by lia. lia.
+Qed.
+
+Lemma rt_crop_base t blk t' : rt_wf t -> valid_block t blk -> rt_crop t (mk_roi blk) = Ok t' ->
+  rt_base t' = Ok (roi_shape2 (block_region t blk)).
+Proof.
+  intros W V E. destruct (rt_crop_spec t blk W V) as (t2 & E2 & W2 & S2 & BY & BX).
+  rewrite E in E2. inversion E2; subst t2. clear E2.
+  rewrite rt_base_axes by assumption. unfold ax_N.
+  assert (Hy : ax_S (rt_y t') = snd (fst blk) - fst (fst blk))
+    by (pose proof (rt_shape_axes t') as SA; rewrite S2 in SA; injection SA; intros; lia).
+  assert (Hx : ax_S (rt_x t') = snd (snd blk) - fst (snd blk))
+    by (pose proof (rt_shape_axes t') as SA; rewrite S2 in SA; injection SA; intros; lia).
+  rewrite Hy, Hx. unfold valid_block in V.
+  fold (By t' (snd (fst blk) - fst (fst blk))). fold (Bx t' (snd (snd blk) - fst (snd blk))).
+  rewrite BY, BX by lia. unfold roi_shape2, block_region. cbn [fst snd].
+  repeat f_equal; lia.
+Qed.
